@@ -17,13 +17,13 @@ import (
 
 // Op is one call on a SafeWriter / io.Writer.
 type Op struct {
-	M string `json:"m"`           // method
-	S string `json:"s,omitempty"` // string / bytes payload, format for Printf
-	R int32  `json:"r,omitempty"` // rune payload
-	B byte   `json:"b,omitempty"` // byte payload
-	I int64  `json:"i,omitempty"` // SafeInt / SafeUint payload
+	M string  `json:"m"`           // method
+	S string  `json:"s,omitempty"` // string / bytes payload, format for Printf
+	R int32   `json:"r,omitempty"` // rune payload
+	B byte    `json:"b,omitempty"` // byte payload
+	I int64   `json:"i,omitempty"` // SafeInt / SafeUint payload
 	F float64 `json:"f,omitempty"`
-	A string `json:"a,omitempty"` // argument form for Print/Printf: "str","safe","rs","int","mixed"
+	A string  `json:"a,omitempty"` // argument form for Print/Printf: "str","safe","rs","int","mixed"
 	// V is false when the payload is outside the domain of the two equalities
 	// (invalid UTF-8, invalid rune, non-ASCII single byte).
 	V bool `json:"v"`
@@ -453,4 +453,3 @@ func applyManual(b *redact.ManualBuffer, o Op) {
 		}
 	}
 }
-
